@@ -156,6 +156,7 @@ func (c19) Plan(tier string, seed int64) []mon.Workload {
 		{Name: "paramdefs", N: seqCount(len(c19Names)*len(c19Kinds), mp), Exhaustive: true},
 		{Name: "calls", N: int64(len(c19ValidLists(mp))) * seqCount(len(c19ArgNames), ma), Exhaustive: true},
 		{Name: "typed-getters", N: int64(len(c19Getters) * len(c19Lits) * 5), Exhaustive: true},
+		{Name: "typed-calls", N: int64(len(c19ValidLists(mp))) * seqCount(len(c19ArgNames), ma), Exhaustive: true},
 		{Name: "nested-calls", N: map[string]int64{"quick": 1500, "thorough": 100000}[tier]},
 	}
 }
@@ -361,6 +362,12 @@ func (c19) Describe(c *mon.Ctx, workload string, i int64) any {
 	if workload == "typed-getters" || workload == "nested-calls" {
 		return map[string]any{"index": i}
 	}
+	if workload == "typed-calls" {
+		nCalls := seqCount(len(c19ArgNames), ma)
+		l := c19ValidLists(mp)[i/nCalls]
+		_, src, _, _ := c19Typed(l, decodeSeq(i%nCalls, len(c19ArgNames), ma))
+		return map[string]any{"signature": sigString(l) + " with declared types int, str, bool, float by position", "call": src}
+	}
 	nCalls := seqCount(len(c19ArgNames), ma)
 	l := c19ValidLists(mp)[i/nCalls]
 	return map[string]any{"signature": sigString(l), "call": callText(decodeSeq(i%nCalls, len(c19ArgNames), ma))}
@@ -403,6 +410,10 @@ func (k c19) Run(c *mon.Ctx, workload string, i int64) {
 	}
 	if workload == "nested-calls" {
 		k.nested(c)
+		return
+	}
+	if workload == "typed-calls" {
+		k.typedCalls(c, i)
 		return
 	}
 	nCalls := seqCount(len(c19ArgNames), ma)
@@ -546,4 +557,143 @@ func rejectKind(l []c19Param, args []int) string {
 		bound[idx] = true
 	}
 	return "missing-required"
+}
+
+// typed-calls (exhaustive over the same space as "calls"): the parameters
+// additionally DECLARE types (Param.Typs: int, str, bool, float by position;
+// a variadic parameter declares none) and every argument is a literal of the
+// type declared by the parameter it is bound to. Whatever use the code under
+// test makes of declared types, such a call binds, and every parameter
+// receives its own argument. Calls that cannot be bound are the business of
+// the untyped workload.
+var c19TypedTypes = []ast.DType{ast.Int, ast.String, ast.Bool, ast.Float}
+
+func c19TypedLit(pi, j int) (string, any) {
+	switch pi {
+	case 0:
+		return fmt.Sprint(100 + j), int64(100 + j)
+	case 1:
+		return fmt.Sprintf("\"s%d\"", j), fmt.Sprintf("s%d", j)
+	case 2:
+		return fmt.Sprint(j%2 == 0), j%2 == 0
+	case 3:
+		return fmt.Sprintf("%d.5", j), float64(j) + 0.5
+	}
+	return fmt.Sprint(100 + j), int64(100 + j) // variadic rest
+}
+
+func c19Typed(l []c19Param, args []int) (params []*runtimev2.Param, src string, want []any, ok bool) {
+	if _, ok = refBind(l, args); !ok {
+		return nil, "", nil, false
+	}
+	params = realParams(l)
+	want = make([]any, len(l))
+	variadic := -1
+	for i, p := range l {
+		switch p.Kind {
+		case "var":
+			variadic = i
+			want[i] = []any{}
+			continue
+		case "opt":
+			_, dv := c19TypedLit(i, 9)
+			params[i].Val = func() any { return dv }
+			want[i] = dv
+		}
+		if i < len(c19TypedTypes) {
+			params[i].Typs = []ast.DType{c19TypedTypes[i]}
+		}
+	}
+	parts := make([]string, len(args))
+	for j, a := range args {
+		pi := j
+		if a != 0 {
+			for i := range l {
+				if l[i].Name == c19ArgNames[a] {
+					pi = i
+				}
+			}
+		} else if variadic >= 0 && j >= variadic {
+			pi = 99
+		}
+		text, val := c19TypedLit(pi, j)
+		if pi == 99 {
+			want[variadic] = append(want[variadic].([]any), val)
+		} else {
+			want[pi] = val
+		}
+		if a != 0 {
+			text = c19ArgNames[a] + " = " + text
+		}
+		parts[j] = text
+	}
+	return params, "f(" + strings.Join(parts, ", ") + ")", want, true
+}
+
+func (k c19) typedCalls(c *mon.Ctx, i int64) {
+	mp, ma := c19Bounds(c.Tier)
+	nCalls := seqCount(len(c19ArgNames), ma)
+	l := c19ValidLists(mp)[i/nCalls]
+	args := decodeSeq(i%nCalls, len(c19ArgNames), ma)
+	params, src, want, ok := c19Typed(l, args)
+	if !ok {
+		return
+	}
+	var got []any
+	var getErr *errchain.PlError
+	fn := &runtimev2.Fn{
+		CallCheck: func(ctx *runtimev2.Task, e *ast.CallExpr) *errchain.PlError {
+			return runtimev2.CheckPassParam(ctx, e, params)
+		},
+		Call: func(ctx *runtimev2.Task, e *ast.CallExpr) *errchain.PlError {
+			for pi := range params {
+				v, err := runtimev2.GetParam(ctx, e, params, pi)
+				if err != nil {
+					getErr = err
+					return err
+				}
+				if l[pi].Kind == "var" {
+					lst, _ := v.([]any)
+					if lst == nil {
+						lst = []any{}
+					}
+					v = lst
+				}
+				got = append(got, v)
+			}
+			return nil
+		},
+	}
+	var err error
+	var pan any
+	func() {
+		defer func() { pan = recover() }()
+		var s *runtimev2.Script
+		if s, err = engine.ParseV2("c19.p", src, map[string]*runtimev2.Fn{"f": fn}); err == nil {
+			out := drive.RunV2(s, &drive.RunState{Budget: 10000})
+			if out.Panic != nil {
+				pan = out.Panic
+			}
+			if out.Err != nil && getErr == nil {
+				getErr = out.Err
+			}
+		}
+	}()
+	c.Eval(1)
+	key := sigString(l) + " (declared types int, str, bool, float by position) <- " + src
+	if len(args) > 0 {
+		c.Nontrivial("typed|" + key)
+	}
+	c.Cell("typed_call_cells", fmt.Sprintf("params%d/args%d", len(l), len(args)))
+	cs := map[string]any{"signature": sigString(l), "call": src}
+	switch {
+	case pan != nil:
+		c.Violate("call-panic", fmt.Sprintf("%s: panic: %v", key, pan), cs)
+	case err != nil:
+		c.Violate("bindable-call-rejected:typed", fmt.Sprintf("%s binds to %s (every argument has the type its own parameter declares) but was rejected: %v", key, ref.Show(want), err), cs)
+	case getErr != nil:
+		c.Violate("getparam-error:typed", fmt.Sprintf("%s was accepted but reading the parameters failed: %v", key, getErr), cs)
+	case !ref.DeepEqual(any(want), any(got), false):
+		c.Violate("wrong-binding:typed", fmt.Sprintf("%s: parameters must receive %s, received %s", key, ref.Show(want), ref.Show(got)), cs)
+	}
 }
